@@ -63,6 +63,8 @@ def worker_init():
     global _SF
     import selfies
     _SF = selfies
+    from mc import hist_explorer as H
+    H.walker()          # snapshot of the import-time state
     c01.worker_init()
 
 
@@ -84,9 +86,23 @@ def run(task):
     r = Result()
     fam = table_family()
     name, table = fam[ti]
-    # install a *different* table first so that a stale cached alphabet cannot go unnoticed
-    _SF.set_semantic_constraints({"Zn": 7, "?": 1})
-    _SF.get_semantic_robust_alphabet()
+    # "reflects the table in force": first install a *super-table* of the target (same entries plus Zn and Zr) and
+    # fill the alphabet and capacity caches under it, so that a stale cache cannot go unnoticed when only keys are
+    # dropped; for every third table the predecessor is an unrelated table instead
+    if isinstance(table, dict) and "?" in table and ti % 3:
+        pre = dict(table)
+    elif isinstance(table, str) and ti % 3:
+        pre = _SF.get_preset_constraints(table)
+    else:
+        pre = {"?": 1}
+    pre.update({"Zn": 7, "Zr": 6})
+    try:
+        _SF.set_semantic_constraints(pre)
+        _SF.get_semantic_robust_alphabet()
+        _SF.decoder("[Zn][#Zn][=Zr][C][N+1][Fe+2]")
+    except ValueError:
+        _SF.set_semantic_constraints({"Zn": 7, "?": 1})
+        _SF.get_semantic_robust_alphabet()
     r.states += 1
     try:
         _SF.set_semantic_constraints(table if isinstance(table, str) else dict(table))
@@ -107,6 +123,26 @@ def run(task):
         r.violation("alphabet-missing-required", case, "missing %r" % sorted(req - set(alpha))[:8])
     if forb & set(alpha):
         r.violation("alphabet-has-over-capacity-symbol", case, "contains %r" % sorted(forb & set(alpha))[:8])
+    # "reflects the table in force": the same table installed on a library restored to its import-time state must
+    # give the same alphabet (differential, so extra symbols a refactor may legitimately add are not judged)
+    from mc import hist_explorer as H
+    H.restore()
+    _SF.set_semantic_constraints(table if isinstance(table, str) else dict(table))
+    fresh = set(_SF.get_semantic_robust_alphabet())
+    if fresh != set(alpha):
+        r.violation("alphabet-reflects-a-previous-table", case,
+                    "after installing %r the alphabet has %r extra and misses %r compared with a fresh library set to "
+                    "the same table" % (pre, sorted(set(alpha) - fresh)[:6], sorted(fresh - set(alpha))[:6]))
+    # re-create the history for the decoding part (capacity caches filled under the predecessor table)
+    H.restore()
+    try:
+        _SF.set_semantic_constraints(pre)
+        _SF.get_semantic_robust_alphabet()
+        _SF.decoder("[Zn][#Zn][=Zr][C][N+1][Fe+2]")
+    except ValueError:
+        pass
+    _SF.set_semantic_constraints(table if isinstance(table, str) else dict(table))
+    alpha = _SF.get_semantic_robust_alphabet()
     A = sorted(alpha)
     atoms = [x for x in A if x[1:-1].lstrip("=#") in t]
     sub = atoms + [x for x in STRUCT if x in alpha]
